@@ -240,7 +240,7 @@ def _run_items(d, res, tier, fam, gm):
                 with core.quiet():
                     sys_, ext = build_naming(g)
         except Exception as e:
-            py4hw.Wire.prepared = []
+            core.reset_prepared()
             res['constructor_rejected'] += 1
             continue
         try:
